@@ -83,6 +83,10 @@ MUTATING_METHODS = {'append', 'extend', 'update', 'pop', 'put', 'sort', 'clear',
                     'eliminate_zeros', 'sort_indices', 'fill'}
 
 
+class ArityError(Exception):
+    pass
+
+
 class Exec(Engine):
 
     # ------------------------------------------------------------------
@@ -431,7 +435,7 @@ class Exec(Engine):
         for k, v in zip(keys, values):
             dom = z3.Store(dom, self.unwrap(k, kk), z3.BoolVal(True))
             val = z3.Store(val, self.unwrap(k, kk), self.unwrap(v, vk))
-        return VDictVal(kk, vk, dom, val, keys=list(keys))
+        return st.alloc(Dict(kk, vk, dom, val))
 
     def ev_ListComp(self, e, st):
         return self.world.comprehension(self, st, e)
@@ -525,7 +529,7 @@ class Exec(Engine):
         if a.vararg is not None and a.vararg.arg not in env:
             env[a.vararg.arg] = VTuple(rest)
         elif rest:
-            raise EngineError('too many positional arguments')
+            raise ArityError('too many positional arguments')
         defaults = a.defaults
         dparams = params[len(params) - len(defaults):] if defaults else []
         kwargs = dict(kwargs)
@@ -536,7 +540,7 @@ class Exec(Engine):
                 d = defaults[dparams.index(p)]
                 env[p] = self.default_value(d, st)
             else:
-                raise EngineError('missing argument %r' % p)
+                raise ArityError('missing argument %r' % p)
         for p, d in zip(a.kwonlyargs, a.kw_defaults):
             if p.arg in kwargs:
                 env[p.arg] = kwargs.pop(p.arg)
@@ -568,7 +572,10 @@ class Exec(Engine):
 
     def call_inline(self, st, fnode, cenv, args, kwargs, node, starv=None, dstar=None, self_val=None, qual=None):
         env = dict(cenv)
-        env.update(self.bind_params(fnode, args, kwargs, st, starv, dstar, self_val))
+        try:
+            env.update(self.bind_params(fnode, args, kwargs, st, starv, dstar, self_val))
+        except ArityError:
+            return [self.exc(st, 'TypeError')]
         caller_env = st.env
         s = st.copy()
         s.env = env
@@ -629,6 +636,8 @@ class Exec(Engine):
             result = self.make_input(post, 'ret_' + c.qualname.replace('.', '_'), c.returns)
             post.env['result'] = result
         else:
+            if any('result' in e for e in c.ensures):
+                raise EngineError('%s: the contract speaks about `result` but declares no `returns` type' % c.key)
             post.env['result'] = NONE
         for ens in c.ensures:
             post.assume(self.sbool(ens, post))
@@ -676,7 +685,12 @@ class Exec(Engine):
     def havoc_node(self, st, ref):
         n = st.node(ref)
         if isinstance(n, Arr):
-            st.setnode(ref, n.replace(a=fresh('hv', n.a.sort())))
+            if n.flavour == 'list':
+                ln = fresh('hvlen', I)
+                st.assume(ln >= 0)
+                st.setnode(ref, n.replace(a=fresh('hv', n.a.sort()), n=ln))
+            else:
+                st.setnode(ref, n.replace(a=fresh('hv', n.a.sort())))
         elif isinstance(n, Dict):
             kw = dict(dom=fresh('hvdom', n.dom.sort()), val=fresh('hvval', n.val.sort()), keys=None, nkeys=None, pos=None)
             if n.inner:
@@ -768,6 +782,8 @@ class Exec(Engine):
     def st_Expr(self, s, st):
         if isinstance(s.value, ast.Constant):
             return [Result(st)]
+        if isinstance(s.value, ast.Yield):
+            return self.world.yield_stmt(self, st, s)
         out = []
         for r in self.ev(s.value, st):
             out.append(Result(r.st, exc=r.exc, flow='raise') if r.exc is not None else Result(r.st))
@@ -931,15 +947,23 @@ class Exec(Engine):
                 if isinstance(n, Dict):
                     kt = self.unwrap(idx, n.kkind)
                     if n.inner:
-                        if val.kind != 'dictval':
+                        dv = self.as_dict(s, val)
+                        if dv is None or dv[5]:
                             raise EngineError('%s:%d: nested dict store of %s' % (self.rel, line, val.kind))
+                        # the inner dict is held by value (aliases of the stored dict object are not tracked)
                         s.setnode(base, n.replace(dom=z3.Store(n.dom, kt, z3.BoolVal(True)),
-                                                  val=z3.Store(n.val, kt, val.val),
-                                                  idom=z3.Store(n.idom, kt, val.dom), keys=None, nkeys=None, pos=None))
+                                                  val=z3.Store(n.val, kt, dv[3]),
+                                                  idom=z3.Store(n.idom, kt, dv[2]), keys=None, nkeys=None, pos=None))
                     else:
-                        s.setnode(base, n.replace(dom=z3.Store(n.dom, kt, z3.BoolVal(True)),
-                                                  val=z3.Store(n.val, kt, self.unwrap(val, n.vkind)),
-                                                  keys=None, nkeys=None, pos=None))
+                        kw = dict(dom=z3.Store(n.dom, kt, z3.BoolVal(True)),
+                                  val=z3.Store(n.val, kt, self.unwrap(val, n.vkind)))
+                        if n.keys is not None:
+                            # insertion order: updating an existing key keeps it, a new key is appended
+                            present = n.dom[kt]
+                            kw.update(keys=z3.If(present, n.keys, z3.Store(n.keys, n.nkeys, kt)),
+                                      pos=z3.If(present, n.pos, z3.Store(n.pos, kt, n.nkeys)),
+                                      nkeys=z3.If(present, n.nkeys, n.nkeys + 1))
+                        s.setnode(base, n.replace(**kw))
                     out.append(Result(s))
                     continue
                 if isinstance(n, Obj):
@@ -1032,8 +1056,11 @@ class Exec(Engine):
                               % (self.rel, s.lineno, ordinal, self.cur.qualname, self.loop_header(s)))
         want = lc.get('header')
         have = self.loop_header(s)
-        same_shape = want is None or ' '.join(want.split()).split(' in ')[0] == ' '.join(have.split()).split(' in ')[0]
-        if want is not None and ' '.join(want.split()) != ' '.join(have.split()) and same_shape:
+
+        def canon(h):
+            return ''.join(ch for ch in h if ch not in '() ')
+        same_shape = want is None or canon(want.split(' in ')[0]) == canon(have.split(' in ')[0])
+        if want is not None and canon(want) != canon(have) and same_shape:
             # bounds / iterable edited: the invariants are still attached to this loop and are
             # checked against the new header (they fail if the edit matters)
             self.notes.append('%s:%d: loop %d header changed from %r to %r' % (self.rel, s.lineno, ordinal, want, have))
@@ -1152,8 +1179,24 @@ class Exec(Engine):
         entry.marks = dict(entry.marks)
         entry.marks[tag] = st.snapshot()
 
+        seqval = None
+        if is_for and not isinstance(s.iter, ast.Call) or (is_for and isinstance(s.iter, ast.Call)
+                                                           and not (isinstance(s.iter.func, ast.Name) and s.iter.func.id == 'range')):
+            from .world import VArrVal
+            kq = fresh('sq', I)
+            try:
+                e0 = elem(st, kq)
+                if e0.kind in ('int', 'real', 'bool', 'str', 'val'):
+                    seqval = VArrVal(e0.kind, z3.Lambda([kq], e0.term), hi)
+                elif e0.kind == 'tuple':
+                    seqval = VTuple([VArrVal(x.kind, z3.Lambda([kq], x.term), hi) for x in e0.items])
+            except Exception:
+                seqval = None
+
         def inv_terms(state, k):
             b = {idx_name: VInt(k)} if is_for else {}
+            if seqval is not None:
+                b['__seq%d' % ordinal] = seqval
             if is_for and isinstance(s.target, ast.Name) and itv_is_range:
                 b[s.target.id] = VInt(k)
             return [self.sbool(iv, state, b) for iv in invs]
@@ -1307,9 +1350,10 @@ class Exec(Engine):
         for name, g in c.ghost.items():
             argk = g.get('args', ['int'])
             retk = g.get('ret', 'int')
+            if g.get('shared') and name in self.ghosts:
+                continue        # module-level ghost: one symbol for caller and callees
             inst = '%s!%s!%d' % (name, c.qualname.replace('.', '_'), next(_gc))
             fn = z3.Function(inst, *([self.sort_of_kind(k) for k in argk] + [self.sort_of_kind(retk)]))
-            saved = self.ghosts.get(name)
             self.ghosts[name] = (fn, argk, retk)
         for name, g in c.ghost.items():
             for ax in g.get('axioms', []):
@@ -1374,6 +1418,9 @@ class Exec(Engine):
         results = self.exec_block(fnode.body, st.copy())
         self.stats['paths'] += len(results)
         for r in results:
+            if c.kind == 'contextmanager':
+                self.check_contextmanager_exit(c, r, fnode, entry)
+                continue
             if r.flow in ('normal', 'return'):
                 post = r.st
                 post.env = dict(post.env)
@@ -1389,18 +1436,41 @@ class Exec(Engine):
                 raise EngineError('%s: %s escapes the function' % (c.key, r.flow))
         return self.obligations
 
+    def check_contextmanager_exit(self, c, r, fnode, entry):
+        post = r.st
+        how = post.marks.get('__exit__')
+        if r.flow in ('normal', 'return'):
+            if how is None:
+                self.oblige(post, 'cm/yields-exactly-once', z3.BoolVal(False), fnode.lineno)
+                return
+            for k, e in enumerate(c.extra.get('exit_ok', [])):
+                self.oblige(post, 'normal-exit/post%d' % k, self.sbool(e, post), fnode.lineno)
+            self.oblige(post, 'sentinel/exit-reachable', z3.BoolVal(False), fnode.lineno)
+        elif r.flow == 'raise':
+            if how == 'exc' and r.exc is post.marks.get('__injected__'):
+                # the block's exception propagates: the exit code that ran is what try/finally/except provides
+                for k, e in enumerate(c.extra.get('exit_exc', [])):
+                    self.oblige(post, 'exc-exit/post%d' % k, self.sbool(e, post), fnode.lineno)
+                self.oblige(post, 'sentinel/exc-exit-reachable', z3.BoolVal(False), fnode.lineno)
+            else:
+                self.check_raise(c, r, fnode, entry)
+        else:
+            raise EngineError('%s: %s escapes the generator' % (c.key, r.flow))
+
     def check_raise(self, c, r, fnode, entry):
         exc = r.exc
         handled = z3.BoolVal(False)
         post = r.st
         for name, conds in c.raises.items():
-            match = exc.cls.term == smt.cls_const(name) if not conds or True else None
+            # '*' : any exception class (conditions may inspect exc_class / exc_args)
+            match = z3.BoolVal(True) if name == '*' else exc.cls.term == smt.cls_const(name)
             m_st = post.copy()
             m_st.assume(match)
             if not self.feasible(m_st):
                 continue
             m_st.env = dict(m_st.env)
             m_st.env['exc_args'] = VTuple(exc.args)
+            m_st.env['exc_class'] = exc.cls
             for k, cnd in enumerate(conds):
                 self.oblige(m_st, 'raise-%s/post%d' % (name, k), self.sbool(cnd, m_st), fnode.lineno)
             if c.extra.get('frame_on_raise', True):
